@@ -334,6 +334,8 @@ for _p in ('C18', 'C01'):
     PROPS[_p]['contracts'] = PROPS[_p]['contracts'] + [(E, 'ber.encoder::SequenceOfEncoder._encodeComponents[value-object,any-size,wrap-type]'),
                                                        (E, 'ber.encoder::_isValueOf'),
                                                        (E, 'ber.encoder::SequenceEncoder.encodeValue[value-object,any-size,open-types]')]
+# C10: a decoded OID is one the encoder accepts (second arc below 40 under 0 and 1)
+PROPS['C10']['contracts'] = PROPS['C10']['contracts'] + [(D, 'ber.decoder::ObjectIdentifierPayloadDecoder.valueDecoder[complete]')]
 # BitString * n (fix 3affd96): n copies of the bits, n times the length
 for _p in ('C14', 'C19'):
     PROPS[_p]['contracts'] = PROPS[_p]['contracts'] + [('contracts.univ_bits', 'type.univ::BitString.%s' % _op) for _op in (
